@@ -302,7 +302,7 @@ func c16cd(c *Ctx, v *variants.Variant) {
 						}
 						return true
 					})
-					if strings.Contains(t, "recover()") && strings.Contains(t, "p.addErr(e)") && strings.Contains(t, "p.errs.err()") {
+					if okSem, _ := recoverHandlerSemantics(c, v, fd, fl); okSem && strings.Contains(t, "recover()") {
 						okH = true
 					}
 				}
